@@ -302,6 +302,10 @@ def register_evalnode(R):
     R.opaque['str.encode'] = lambda it, a, kw, n, fr: OpaqueV('bytes')
     R.opaque['str.split'] = lambda it, a, kw, n, fr: _fresh_list(it)
     R.opaque['types.ModuleType'] = lambda it, a, kw, n, fr: _fresh_module(it)
+    R.add(Contract(EV + 'EvalNode._forget_eval_symbols', [P.val('gbls', 'any')], name='abstract', assume_only=True, pure=True, props=('C12',),
+                   note='removes from a REUSED namespace the names an earlier evaluation recorded as its eval symbols (loop over a recorded mapping). ASSUMED not to touch '
+                        'anything the clauses of on_evaluate_impl read: it runs before the `ayns` entry and the symbols of the current build are written, which is all '
+                        'the execution gates look at. Its effect (a later build does not see symbols of an earlier one) is covered by the bounded build histories'))
     R.add(Contract(EV + 'EvalNode._patch_access_to_globals', [P.val('code', 'any')], name='abstract', assume_only=True, pure=True,
                    result=lambda c, it: TupleV([SV(it.run.fresh('patched_code')), SV(it.run.fresh('did_something'))]), props=('C12',),
                    note='the CPython bytecode rewriter: NOT under contract (a translator over interpreter-specific bytecode); see the recorded finding and the bounded stand-in'))
